@@ -1,10 +1,10 @@
 SPECIFICATION Spec
 CONSTANTS
   DtNames = {"int", "NE"}
-  Extra = 2
-  Slack = 2
-  Neutral = 1
+  Edits = 1
+  MaxTail = 2
   Wide = FALSE
+  Deep = FALSE
   Dump = TRUE
 INVARIANT RefSound
 INVARIANT DtSound
